@@ -275,6 +275,23 @@ func (w *modWorld) lists() term.T {
 	return term.L(out...)
 }
 
+// per unit: does the evaluated change set carry the STAT_CTRL flag, and does HasFlag agree
+// (property C06: flags are the union over exactly the instances attached at this moment)
+func (w *modWorld) flags() term.T {
+	out := []term.T{}
+	for _, u := range w.units {
+		inSet := false
+		for _, f := range w.mgr.EvalModifiers(u).Flags {
+			if f == model.BehaviorFlag_STAT_CTRL {
+				inSet = true
+			}
+		}
+		has := w.mgr.HasFlag(u, model.BehaviorFlag_STAT_CTRL)
+		out = append(out, term.Tup(term.B(inSet), term.B(has)))
+	}
+	return term.L(out...)
+}
+
 func newModWorld(wd term.T, seed int64, depth int) *modWorld {
 	modCaseUID++
 	w := &modWorld{uid: modCaseUID, depth: depth, handles: map[int64]*modifier.Instance{}}
@@ -360,7 +377,7 @@ func runModifier(in term.T) term.T {
 	for _, o := range term.List(it[3]) {
 		w.events = nil
 		res := w.doOp(o)
-		out = append(out, term.Tup(term.I(res), w.lists(), term.L(w.events...)))
+		out = append(out, term.Tup(term.I(res), w.lists(), w.flags(), term.L(w.events...)))
 	}
 	return term.C("Obs", term.L(out...))
 }
